@@ -135,10 +135,11 @@ fn index_spec(cfg: &GenCfg, index: u16) -> BoxedStrategy<IndexSpec> {
 fn op(cfg: &GenCfg, n_ix: usize) -> BoxedStrategy<Op> {
     let w = cfg.op_weights;
     let ix = 0..n_ix;
-    let mut arms: Vec<(u32, BoxedStrategy<Op>)> = vec![
-        (w[0], (ix.clone(), any::<u16>(), any::<u32>()).prop_map(|(ix, slot, vseed)| Op::Add { ix, slot, vseed }).boxed()),
-        (w[1], (ix.clone(), any::<u16>()).prop_map(|(ix, slot)| Op::Del { ix, slot }).boxed()),
-    ];
+    let mut arms: Vec<(u32, BoxedStrategy<Op>)> =
+        vec![(w[0].max(1), (ix.clone(), any::<u16>(), any::<u32>()).prop_map(|(ix, slot, vseed)| Op::Add { ix, slot, vseed }).boxed())];
+    if w[1] > 0 {
+        arms.push((w[1], (ix.clone(), any::<u16>()).prop_map(|(ix, slot)| Op::Del { ix, slot }).boxed()));
+    }
     if w[2] > 0 {
         arms.push((w[2], (ix.clone(), any::<u16>(), any::<u32>()).prop_map(|(ix, slot, vseed)| Op::Append { ix, slot, vseed }).boxed()));
     }
